@@ -101,6 +101,36 @@ Proof. reflexivity. Qed.
 Lemma census_raw_stream : raw_stream_users =
   ["HIvalid_magic: HI_SEEK("; "HIvalid_magic: HI_READ("; "HP_read: HI_READ("; "HPseek: HI_SEEK("; "HP_write: HI_WRITE("].
 Proof. reflexivity. Qed.
+(* Hopen: an existing file is opened and its descriptors are read (load) unless the mode is EXACTLY DFACC_CREATE (4);
+   a file is created (HTPinit) only for that mode or when it did not exist.  Hdupdd: HTPcreate before the update. *)
+Lemma skel_Hopen : Hopen_skel =
+  ["if(!path||((acc_mode&7)!=acc_mode))"; "HIget_filerec_node(path)"; "if(acc_mode==4)";
+   "if((acc_mode&2)&&!(file_rec->access&2))"; "else"; "if(acc_mode!=4)"; "if((acc_mode&2)&&(*__errno_location())==2)";
+   "else"; "else"; "HTPstart(file_rec)"; "if(acc_mode==4||new_file)"; "else"; "HTPinit(file_rec,ndds)"; "else"].
+Proof. reflexivity. Qed.
+Lemma skel_Hdupdd : Hdupdd_skel =
+  ["HTPselect(file_rec,old_tag,old_ref)"; "HTPcreate(file_rec,tag,ref)";
+   "HTPinquire(old_dd,((void*)0),((void*)0),&old_off,&old_len)"; "HTPupdate(new_dd,old_off,old_len)"].   (* op_dup *)
+Proof. reflexivity. Qed.
+Lemma session_entry_lemma :
+  Hopen_skel =
+    ["if(!path||((acc_mode&7)!=acc_mode))"; "HIget_filerec_node(path)"; "if(acc_mode==4)";
+     "if((acc_mode&2)&&!(file_rec->access&2))"; "else"; "if(acc_mode!=4)"; "if((acc_mode&2)&&(*__errno_location())==2)";
+     "else"; "else"; "HTPstart(file_rec)"; "if(acc_mode==4||new_file)"; "else"; "HTPinit(file_rec,ndds)"; "else"] /\
+  Hdupdd_skel =
+    ["HTPselect(file_rec,old_tag,old_ref)"; "HTPcreate(file_rec,tag,ref)";
+     "HTPinquire(old_dd,((void*)0),((void*)0),&old_off,&old_len)"; "HTPupdate(new_dd,old_off,old_len)"] /\
+  (forall fr t r ot orf, has_dd fr t r = true -> run_op fr (OpDup t r ot orf) = (fr, []) \/
+                         snd (run_op fr (OpDup t r ot orf)) = []).
+Proof.
+  split; [exact skel_Hopen|]. split; [exact skel_Hdupdd|].
+  intros fr t r ot orf H. simpl. unfold op_dup.
+  destruct (find_dd (f_blocks fr) ot orf) as [[bi i]|]; [|left; reflexivity].
+  destruct (nth_error (f_blocks fr) bi); [|left; reflexivity].
+  destruct (nth_error (b_dds (m_blk m)) i); [|left; reflexivity].
+  rewrite H. left. reflexivity.
+Qed.
+
 Lemma census_maxref : maxref_writers =
   ["Hopen: file_rec->maxref=0"; "Hstartaccess: file_rec->maxref=new_ref"; "HTPstart: file_rec->maxref=0";
    "HTPstart: file_rec->maxref=curr_dd_ptr->ref"; "HTPinit: file_rec->maxref=0"; "HTPcreate: file_rec->maxref=ref";
@@ -389,6 +419,22 @@ Proof.
       try lia; repeat constructor; simpl; lia.
 Qed.
 
+Lemma op_dup_mono fr tag ref otag oref e :
+  f_cache fr = true -> 0 <= hd_ndds fr -> e <= f_end fr ->
+  forall fr' w, op_dup fr tag ref otag oref = (fr', w) -> mono e fr fr' w.
+Proof.
+  intros Hc Hn He fr' w. unfold op_dup.
+  destruct (find_dd (f_blocks fr) otag oref) as [[bi i]|]; [|intros H; inversion H; subst; apply mono_refl].
+  destruct (nth_error (f_blocks fr) bi) as [mb|]; [|intros H; inversion H; subst; apply mono_refl].
+  destruct (nth_error (b_dds (m_blk mb)) i) as [d|]; [|intros H; inversion H; subst; apply mono_refl].
+  destruct (has_dd fr tag ref); [intros H; inversion H; subst; apply mono_refl|].
+  destruct (create_dd fr tag ref) as [[slot fr1] w1] eqn:C.
+  pose proof (create_dd_mono fr tag ref e Hc Hn He _ _ _ C) as M1. destruct M1 as (A1 & B1 & C1 & D1).
+  destruct (update_dd fr1 (fst slot) (snd slot) _) as [fr2 w2] eqn:U.
+  destruct (update_dd_mono fr1 _ _ _ e ltac:(congruence) ltac:(lia) _ _ U) as [Hw2 M2].
+  intros H. injection H as <- <-. apply (mono_trans e fr fr1 fr2); auto. repeat split; auto.
+Qed.
+
 Lemma op_ok1_len o : op_ok1 o = true ->
   match o with OpPut _ _ l _ => 0 <= l | OpPutNew _ l _ => 0 <= l | OpCopy _ _ l _ => 0 <= l
              | OpRewrite _ _ l _ => 0 <= l | _ => True end.
@@ -427,7 +473,8 @@ Proof.
       - eapply op_del_mono; eauto.
       - eapply op_get_mono; eauto.
       - eapply op_copy_mono; eauto.
-      - eapply op_rewrite_mono; eauto. }
+      - eapply op_rewrite_mono; eauto.
+      - eapply op_dup_mono; eauto. }
     destruct (run_ops fr1 r) as [fr2 w2] eqn:R2.
     destruct M1 as (A & B & C & D).
     pose proof (IH fr1 e ltac:(congruence) ltac:(congruence) ltac:(lia) Hr _ _ R2) as M2.
